@@ -57,7 +57,8 @@ PROFILES = [
 ]
 DOCTYPE_OPTS = [None, None, ['name', 'html'], ['name', 'xhtml-strict'], ['name', 'html5'], ['name', 'XHTML11'],
                 ['tuple', 'html', None, 'about:legacy-compat'],
-                ['tuple', 'html', '-//W3C//DTD HTML 4.01//EN', 'http://www.w3.org/TR/html4/strict.dtd']]
+                ['tuple', 'html', '-//W3C//DTD HTML 4.01//EN', 'http://www.w3.org/TR/html4/strict.dtd'],
+                ['tuple', 'html', None, 'sys"tem.dtd']]
 
 
 def pick_profile(rng):
